@@ -4,6 +4,10 @@ spec -> code : TLC explores SpanState.tla exhaustively for small domains under s
                combinations, prints every edge; harness/c04 replays each edge on a real span
                (path to the source state + the operation) and compares the exported span's
                projection with the spec's successor state.
+               Spans are created by an explicit Start(attrs, links) step in the start-* configs
+               (trace.WithAttributes / trace.WithLinks = the same bounded steps as later calls) and
+               RecordError / AddEvent carry their options (WithStackTrace, WithTimestamp, attribute
+               lists with duplicates) in the recerr-* configs.
 code -> spec : harness/c04 runs seeded random span programs (up to 13 keys, limits up to 8,
                arbitrary valid/invalid UTF-8 symbol strings) on real spans; TLC validates the
                recorded observations against SpanModel via Trace_SpanState.tla.
@@ -18,6 +22,19 @@ V_LONG = '[t |-> "s", x |-> <<<<"m2","fffd","a1">>>>]'
 V_BAD = '[t |-> "s", x |-> <<<<"a1","bad","m3">>>>]'
 V_INT = '[t |-> "i", x |-> <<<<"1">>>>]'
 V_SS = '[t |-> "ss", x |-> <<<<"a1","a1","m4">>, <<"bad">>>>]'
+
+
+# link classes [valid ctx, trace state, #attrs]; L_I0 is the ignorable (empty) link
+def lk(valid, tst, n):
+    return '[valid |-> %s, tst |-> %s, n |-> %d]' % ("TRUE" if valid else "FALSE", "TRUE" if tst else "FALSE", n)
+
+
+L_V0, L_V1, L_V2 = lk(1, 0, 0), lk(1, 0, 1), lk(1, 0, 2)
+L_I0, L_I1, L_I2 = lk(0, 0, 0), lk(0, 0, 1), lk(0, 0, 2)
+L_IT, L_VT1 = lk(0, 1, 0), lk(1, 1, 1)
+DEFAULTS = dict(EVKEYS='{<<>>, <<"ea0">>, <<"ea0","ea1">>}', ERRKEYS='{<<>>, <<"ea0">>}', EVTS='{""}', STACKS='{FALSE}',
+                LINKS="{%s}" % ", ".join([L_V0, L_V1, L_V2, L_I0, L_I1, L_I2, L_IT, L_VT1]),
+                USESTART="FALSE", STARTATTRMAX=0, STARTLINKMAX=0)
 
 
 def lim(ac=-1, vl=-1, ec=-1, lc=-1, pe=-1, pl=-1):
@@ -39,7 +56,7 @@ def all_strings(maxlen):
 
 
 def configs(tier):
-    ALL = '{"SetAttributes","AddEvent","RecordError","AddLink","SetStatus","SetName","End"}'
+    ALL = '{"SetAttributes","AddEvent","RecordError","AddLink","SetStatus","SetName","End","Peek"}'
     cfgs = []
     attr_lims = [lim(ac=2, vl=2), lim(ac=0), lim(ac=-1, vl=0), lim(ac=1, vl=1), lim(ac=3, vl=3)]
     vals = "{%s}" % ", ".join([V_A1, V_LONG, V_INT])
@@ -47,7 +64,7 @@ def configs(tier):
         attr_lims += [lim(ac=2, vl=-1), lim(ac=1, vl=0), lim(ac=3, vl=1), lim(ac=-1, vl=2), lim(ac=2, vl=1)]
         vals = "{%s}" % ", ".join([V_A1, V_LONG, V_BAD, V_INT, V_SS])
     for L in attr_lims:
-        cfgs.append(dict(name="attrs-ac%d-vl%d" % (L["ac"], L["vl"]), lim=L, OPS='{"SetAttributes","End"}',
+        cfgs.append(dict(name="attrs-ac%d-vl%d" % (L["ac"], L["vl"]), lim=L, OPS='{"SetAttributes","End","Peek"}',
                          KEYS='{"k1","k2","k3",""}', VALS=vals, MAXLIST=2,
                          MAXSTEPS=3))
     ev_lims = [lim(ec=1, lc=1, pe=1, pl=1), lim(ec=0, lc=0, pe=0, pl=0), lim(ec=2, lc=2, pe=-1, pl=0),
@@ -62,6 +79,34 @@ def configs(tier):
                      VALS="{%s}" % V_A1, MAXLIST=1, MAXSTEPS=4))
     cfgs.append(dict(name="mixed", lim=lim(ac=1, vl=1, ec=1, lc=1, pe=1, pl=1), OPS=ALL, KEYS='{"k1","k2",""}',
                      VALS="{%s}" % ", ".join([V_A1, V_LONG]), MAXLIST=1, MAXSTEPS=4 if tier == "thorough" else 3))
+    # ---- Start options: links / attributes given at Start are the same bounded steps as later calls
+    sl_lims = [lim(lc=2, pl=1), lim(lc=1, pl=0), lim(lc=0, pl=-1)]
+    if tier == "thorough":
+        sl_lims += [lim(lc=-1, pl=2), lim(lc=3, pl=1), lim(lc=2, pl=-1)]
+    for L in sl_lims:
+        cfgs.append(dict(name="start-links-lc%d-pl%d" % (L["lc"], L["pl"]), lim=L, OPS='{"AddLink","End"}', KEYS='{"k1"}',
+                         VALS="{%s}" % V_A1, MAXLIST=1, MAXSTEPS=2, USESTART="TRUE", STARTLINKMAX=3,
+                         LINKS="{%s}" % ", ".join([L_V0, L_I0, L_I1, L_V2, L_IT])))
+    sa_lims = [lim(ac=2, vl=2), lim(ac=1, vl=1)]
+    if tier == "thorough":
+        sa_lims += [lim(ac=0), lim(ac=-1, vl=0), lim(ac=3, vl=3)]
+    for L in sa_lims:
+        cfgs.append(dict(name="start-attrs-ac%d-vl%d" % (L["ac"], L["vl"]), lim=L, OPS='{"SetAttributes","End","Peek"}',
+                         KEYS='{"k1","k2","k3",""}', VALS="{%s}" % ", ".join([V_A1, V_LONG, V_INT]), MAXLIST=1, MAXSTEPS=2,
+                         USESTART="TRUE", STARTATTRMAX=3 if tier == "thorough" else 2))
+    cfgs.append(dict(name="start-mixed", lim=lim(ac=1, vl=1, ec=1, lc=1, pe=1, pl=1), OPS=ALL, KEYS='{"k1","k2",""}',
+                     VALS="{%s}" % ", ".join([V_A1, V_LONG]), MAXLIST=1, MAXSTEPS=2 if tier == "thorough" else 1,
+                     USESTART="TRUE", STARTATTRMAX=1, STARTLINKMAX=2, LINKS="{%s}" % ", ".join([L_V1, L_I0, L_I2])))
+    # ---- RecordError / AddEvent options: generated exception.* attributes (+ stack trace) and the
+    # caller's list (duplicates allowed) under the per-event cap, explicit timestamps, nil error
+    re_lims = [lim(pe=-1, ec=2), lim(pe=0, ec=1), lim(pe=1, ec=-1), lim(pe=2, ec=2), lim(pe=3, ec=1)]
+    if tier == "thorough":
+        re_lims += [lim(pe=4, ec=2), lim(pe=2, ec=0), lim(pe=5, ec=-1)]
+    for L in re_lims:
+        cfgs.append(dict(name="recerr-pe%d-ec%d" % (L["pe"], L["ec"]), lim=L, OPS='{"AddEvent","RecordError","End"}',
+                         KEYS='{"k1"}', VALS="{%s}" % V_A1, MAXLIST=1, MAXSTEPS=3 if tier == "thorough" else 2,
+                         EVKEYS='{<<>>, <<"ea0">>, <<"ea0","ea1">>, <<"ea0","ea0">>, <<"ea0","ea1","ea0">>}',
+                         ERRKEYS='{<<>>, <<"ea0">>, <<"ea0","ea1">>, <<"ea0","ea0">>}', EVTS='{"", "t1"}', STACKS="BOOLEAN"))
     # truncation: every symbol string up to length 3 (4 in thorough) as a value, every limit 0..4
     n = 4 if tier == "thorough" else 3
     strs = all_strings(n)
@@ -72,10 +117,24 @@ def configs(tier):
     return cfgs
 
 
+def events_equal(want, got):
+    if len(want) != len(got):
+        return False
+    for w, g in zip(want, got):
+        if (w["name"], w["ts"], w["d"]) != (g.get("name"), g.get("ts"), g.get("d")):
+            return False
+        if g.get("ks") != w["ks"] and g.get("ks") != w.get("ks2"):
+            return False
+    return True
+
+
 def classify(want, got):
     """which component of the projection differs (for known-finding matching and reports)"""
     for k in ("dropped", "evDropped", "lkDropped", "events", "links", "code", "desc", "name", "ended"):
-        if want.get(k) != got.get(k):
+        if k == "events":
+            if not events_equal(want.get(k) or [], got.get(k) or []):
+                return k
+        elif want.get(k) != got.get(k):
             return k
     wa = {a["k"]: a for a in want.get("attrs", [])}
     ga = {a["k"]: a for a in got.get("attrs", [])}
@@ -101,8 +160,10 @@ def run(ctx):
     reps = range(4) if thorough else [ctx.seed % 4]
     edges_total = 0
     for c in configs(ctx.tier):
-        d = {"LIM": tla_lim(c["lim"]), "OPS": c["OPS"], "KEYS": c["KEYS"], "VALS": c["VALS"],
-             "MAXLIST": c["MAXLIST"], "MAXSTEPS": c["MAXSTEPS"]}
+        d = dict(DEFAULTS)
+        d.update({"LIM": tla_lim(c["lim"]), "OPS": c["OPS"], "KEYS": c["KEYS"], "VALS": c["VALS"],
+                  "MAXLIST": c["MAXLIST"], "MAXSTEPS": c["MAXSTEPS"]})
+        d.update({k: v for k, v in c.items() if k in DEFAULTS})
         r = ctx.tlc(S, "MC_SpanState", "MC_SpanState.cfg", defines=d, want_edges=True, name=c["name"], timeout=1800)
         for rep in reps:
             out = os.path.join(ctx.work, "replay-%s-%d.json" % (c["name"], rep))
@@ -137,6 +198,7 @@ def run(ctx):
     ctx.traces_validated += n
     ctx.evaluations += res["executed"]
     ctx.extra["random_programs"] = n
+    ctx.extra["random_counters"] = res.get("counters", {})
     ctx.extra["trace_lines_validated"] = accepted
     ctx.add_samples(res["samples"][:1])
     lines = None
@@ -159,7 +221,12 @@ def run(ctx):
     ctx.assumptions += [
         "symbol classes a1/m2/m3/m4/fffd/bad stand for their representatives in harness/vh/sym.go",
         "non-string attribute values are represented by one witness value per type",
-        "event/link attributes are identified by position (ea0..), kept attributes must be the first n offered",
+        "link attributes are identified by position (ea0..), kept attributes must be the first n offered",
+        "event attributes are identified by (key, position in the caller's list); the per-event cap keeps a prefix of "
+        "the list; RecordError may place its generated exception.* attributes before or after the caller's",
+        "exception.stacktrace is projected by presence (non-empty string), explicit event timestamps by equality",
+        "links with an invalid span context are ignored only if they have neither attributes nor trace state "
+        "(OTel spec, CHANGELOG #5315; the older sentence on trace.WithLinks is read in that sense)",
     ]
     ctx.extra["rule"] = ("edges: every transition of SpanState.tla for the listed configs; random: seeded span programs; "
                          "a case is distinct by (limits, operation sequence)")
